@@ -57,7 +57,8 @@ def run(check):
     check.rule = ("multi-output programs (success path plus error-output / alt / crashed / deploy_failed / disabled paths); outcome vectors over "
                   "{success,error,alt,crash,deployfail} enumerated for 6 small shapes (exhaustive in thorough, 25 per shape in quick) plus generated "
                   "programs of all shapes, some with an output field / wait-optional field / step input that cannot be evaluated over the produced values (such an output is "
-                  "not producible); completion order varied by random delay plans; oracle: returned (id,data,err) must lie in the reference's "
+                  "not producible), workflow inputs of every type flowing into outputs and step inputs, programs in which only the stuck-workflow check can tell that "
+                  "nothing is producible; completion order varied by random delay plans; oracle: returned (id,data,err) must lie in the reference's "
                   "allowed set; non-trivial = at least one step does not succeed or >=2 outputs declared; distinct = (shape, outcome vector, returned id)")
     check.assumptions = ["reference semantics vlib/ref.py (Appendix B of DESIGN.md)", "error message texts are not compared"]
     gs = enumerated(check)
@@ -122,7 +123,57 @@ def run(check):
             ids["several_producible"] = ids.get("several_producible", 0) + 1
         check.sample({"case": cid, "shape": g["shape"], "outcome": g["outcome"], "producible": sorted(exp["avail"]), "returned": run.get("out_id"), "err_type": run.get("err_type")})
 
+    # workflow input of every type flowing into outputs and step inputs: what expressions see is the serialized form of the
+    # validated input (a pattern is its text, typed lists and maps are plain lists and maps)
+    from ..model import InputSchema, In
+    isch = InputSchema({"s": {"type": "string"}, "p": {"type": ("pattern",)}, "i": {"type": "integer"}, "fl": {"type": "float"}, "bo": {"type": "bool"},
+                        "li": {"type": ("list", "integer")}, "ls": {"type": ("list", ("pattern",)), "required": False}, "ma": {"type": ("map", "string", "integer")},
+                        "en": {"type": ("enum", ["x", "y"])}, "ob": {"type": ("object", "Inner", {"k": {"type": "integer"}, "q": {"type": ("list", "float"), "required": False}})},
+                        "dflt": {"type": "integer", "required": False, "default": 9}})
+    for i in range(check.pick(24, 200)):
+        rng = random.Random(derive_seed(check.seed, "c03-typed", i))
+        doc = {"s": rng.choice(["str", "12", ""]), "p": rng.choice(["^a+$", "[0-9]{2}", "x|y"]), "i": rng.choice([5, -3, 0, "17"]), "fl": rng.choice([1.5, -2, "0.25"]), "bo": rng.choice([True, False, "true"]),
+               "li": rng.choice([[1, 2, 3], [], ["4", 5]]), "ma": rng.choice([{"k": 3}, {}, {"a": 1, "b": "2"}]), "en": rng.choice(["x", "y"]), "ob": {"k": rng.choice([1, "2"])}}
+        if rng.random() < 0.5:
+            doc["ls"] = ["a|b", "c+"]
+        if rng.random() < 0.5:
+            doc["ob"]["q"] = [1, 2.5]
+        fields = rng.sample(["s", "p", "i", "fl", "bo", "li", "ma", "en", "ob", "dflt"] + (["ls"] if "ls" in doc else []), rng.choice([1, 3, 6]))
+        a = gen.plugin_step("a", Expr(In("s")), extra_input={"a": {f: Expr(In(f)) for f in fields}})
+        outs = {"success": dict({f: Expr(In(f)) for f in fields}, a=Expr(Ref("a", "outputs", "success", "a")))}
+        if rng.random() < 0.4:
+            outs["success"]["all"] = Expr(In())
+        prog = Program([a], outs, isch)
+        gs_item = {"program": prog, "scripts": gen.make_scripts([a], {}), "input": doc, "shape": "typed-input/%s" % "+".join(sorted(fields)), "outcome": {}}
+        case, sem = runfam.build_case("c03-ty%04d" % i, gs_item)
+        items.append((case, sem, gs_item))
+    # no output is producible and only the stuck-workflow check can find that out: the run must still return (with an error)
+    from .c01 import late_waiter_case
+    late = []
+    for i in range(check.pick(20, 150)):
+        rng = random.Random(derive_seed(check.seed, "c03-late", i))
+        g = late_waiter_case(rng)
+        case, sem = runfam.build_case("c03-lw%04d" % i, g, **({"triggers": g["triggers"]} if g["triggers"] else {}))
+        late.append((case, sem, g))
     with harness.Runner() as rn:
+        if not rn.hang_oracle_works():
+            check.fail_broken("the hang oracle (Go runtime deadlock report) does not fire in this build")
         runfam.run_and_monitor(check, rn, items, {"C03"}, on_result=on_result)
+        lout = rn.run_cases([c for c, _s, _g in late])
+    for case, sem, g in late:
+        o = lout.get(case["id"], {})
+        check.count()
+        if "death" in o:
+            d = o["death"]
+            if d["kind"] == "deadlock":
+                check.report("result@never-returned", "no output is producible (%s) and the run returned neither an error nor an output: %s" % (g["shape"], d["key"]),
+                             {"case": case, "detail": d.get("detail", "")[:3000]})
+            else:
+                check.inconclusive_case(case["id"], "%s %s" % (d["kind"], d["key"]))
+            continue
+        for v in mon.monitor_run(case, o["result"], sem):
+            if v.prop == "C03":
+                check.report(v.key, "case %s (%s): %s" % (case["id"], g["shape"], v.what), {"case": case, "violation": v.to_json()})
+        check.nontrivial(g["shape"])
     check.extra["result_kinds"] = ids
     check.extra["exhaustive_outcome_vectors"] = not check.quick()
